@@ -339,3 +339,95 @@ Proof.
 From IQ Require ProfileBlocksSpec.
 exact ProfileBlocksSpec.get_blocks_from_profile_spec. Qed.
 Print Assumptions C19_get_blocks_from_profile_spec.
+
+(* ---- tie to the source, WHILE fragment and small extensions (tools/translate_loops.py -> gen/Loops.v, regenerated on every check).
+        Functions with a `while` loop are translated in checked form: the loop is a Fixpoint on an explicit fuel over the tuple of the local
+        variables, the result is py_Done v / py_OutOfFuel / py_Raises k (1 IndexError, 3 AssertionError, 4 ZeroDivisionError).  run_of maps the
+        `outcome` of the hand models to it.  Each equality is for ALL inputs and EVERY fuel above the stated bound.  One bridge library per
+        function, loaded inside the proof. *)
+From IQ Require Import LoopsRunSupport.
+From IQ Require ProfileHelpers2.
+Theorem C19_sum_intervals_to_point_is_the_source : forall l pos fuel, (length l < fuel)%nat ->
+  Loops.py_sum_intervals_to_point fuel l pos = run_of (Intervals.sum_to_point l pos).
+Proof.
+From IQ Require LoopSumToBridge.
+exact LoopSumToBridge.sum_to_point_is_the_source. Qed.
+Print Assumptions C19_sum_intervals_to_point_is_the_source.
+Theorem C19_sum_intervals_from_point_is_the_source : forall l pos fuel, (length l < fuel)%nat ->
+  Loops.py_sum_intervals_from_point fuel l pos = run_of (Intervals.sum_from_point l pos).
+Proof.
+From IQ Require LoopSumFromBridge.
+exact LoopSumFromBridge.sum_from_point_is_the_source. Qed.
+Print Assumptions C19_sum_intervals_from_point_is_the_source.
+(* read_coverage_fraction: the two-pointer sweep; the float quotient as the exact rational of the (intersection, read length) pair of the model *)
+Theorem C19_read_coverage_fraction_is_the_source : forall R I fuel, (length R + length I < fuel)%nat ->
+  Loops.py_read_coverage_fraction fuel R I =
+  match Intervals.coverage_fraction R I with
+  | Ok (i, t) => Loops.py_Done (QArith_base.Qdiv (QArith_base.inject_Z i) (QArith_base.inject_Z t)) | Raises k => Loops.py_Raises k end.
+Proof.
+From IQ Require LoopCoverageBridge.
+exact LoopCoverageBridge.read_coverage_fraction_is_the_source. Qed.
+Print Assumptions C19_read_coverage_fraction_is_the_source.
+(* get_exon (loop-free; the re-assignment of the parameter for negative positions as a shadowing let) *)
+Theorem C19_get_exon_is_the_source : forall reg J p,
+  Intervals.get_exon reg J p =
+  if negb (p <=? Z.of_nat (length J)) then Raises AssertionError
+  else if Loops.py_get_exon_pre reg J p then Ok (Loops.py_get_exon reg J p) else Raises IndexError.
+Proof.
+From IQ Require LoopGetExonBridge.
+exact LoopGetExonBridge.get_exon_is_the_source. Qed.
+Print Assumptions C19_get_exon_is_the_source.
+
+(* ---- further profile helpers without a hand model (default arguments applied by the regenerated prologue, ranges, membership / index):
+        the regenerated function is its declarative reading (ProfileHelpers2.v) and no exception is possible, for profiles of equal length and
+        every range inside them *)
+Theorem C19_has_overlapping_features_spec : forall p1 p2 org, let rg := match org with Some r => r | None => ProfileHelpers2.whole p1 end in
+  length p1 = length p2 -> ProfileHelpers2.range_ok p1 rg = true ->
+  Loops.py_has_overlapping_features p1 p2 org = existsb (fun p => (fst p =? 1) && (snd p =? 1)) (combine (ProfileHelpers2.slice p1 rg) (ProfileHelpers2.slice p2 rg)) /\
+  Loops.py_has_overlapping_features_pre p1 p2 org = true.
+Proof.
+From IQ Require ProfileOverlappingSpec.
+exact ProfileOverlappingSpec.has_overlapping_features_spec. Qed.
+Print Assumptions C19_has_overlapping_features_spec.
+Theorem C19_equal_profiles_in_range_spec : forall iso read rg, length iso = length read -> ProfileHelpers2.range_ok iso rg = true ->
+  Loops.py_equal_profiles_in_range iso read rg =
+    forallb (fun p => (snd p =? 0) || (fst p =? snd p)) (combine (ProfileHelpers2.slice iso rg) (ProfileHelpers2.slice read rg)) /\
+  Loops.py_equal_profiles_in_range_pre iso read rg = true.
+Proof.
+From IQ Require ProfileEqualInRangeSpec.
+exact ProfileEqualInRangeSpec.equal_profiles_in_range_spec. Qed.
+Print Assumptions C19_equal_profiles_in_range_spec.
+(* difference_in_present_features(profile1, profile2) with both defaults: the number of positions where both are non-zero and differ *)
+Theorem C19_difference_in_present_features_spec : forall p1 p2, length p1 = length p2 ->
+  Loops.py_difference_in_present_features_dflt p1 p2 =
+    Z.of_nat (length (filter (fun p => negb (fst p =? 0) && negb (snd p =? 0) && negb (fst p =? snd p)) (combine p1 p2))) /\
+  Loops.py_difference_in_present_features_dflt_pre p1 p2 = true.
+Proof.
+From IQ Require ProfileDifferenceSpec LoopsRangeSupport.
+exact (fun p1 p2 L => match ProfileDifferenceSpec.difference_in_present_features_dflt_spec p1 p2 L with
+  conj A B => conj (eq_trans A (f_equal (fun l => Z.of_nat (length (filter ProfileHelpers2.differs l)))
+                                 (f_equal2 (@combine Z Z) (LoopsRangeSupport.slice_whole p1)
+                                    (eq_trans (f_equal (ProfileHelpers2.slice p2) (f_equal (fun n => (0, Z.of_nat n)) L)) (LoopsRangeSupport.slice_whole p2))))) B end). Qed.
+Print Assumptions C19_difference_in_present_features_spec.
+Theorem C19_find_matching_positions_spec : forall p1 p2, Loops.py_find_matching_positions_pre p1 p2 = true ->
+  Loops.py_find_matching_positions p1 p2 = map (fun p => if fst p =? snd p then 1 else 0) (combine p1 p2) /\
+  length (Loops.py_find_matching_positions p1 p2) = length p1.
+Proof.
+From IQ Require ProfileMatchingSpec.
+exact ProfileMatchingSpec.find_matching_positions_spec. Qed.
+Print Assumptions C19_find_matching_positions_spec.
+(* left_truncated / right_truncated / rindex: in terms of the positions of the first / last 1 (ProfileHelpers2.first_pos / last_pos) *)
+Theorem C19_truncated_spec : forall read iso,
+  (Loops.py_left_truncated read iso = ProfileHelpers2.spec_left_truncated read iso /\ Loops.py_left_truncated_pre read iso = true) /\
+  (Loops.py_right_truncated read iso = ProfileHelpers2.spec_right_truncated read iso /\ Loops.py_right_truncated_pre read iso = true).
+Proof.
+From IQ Require ProfileTruncatedSpec.
+exact (fun r i => conj (ProfileTruncatedSpec.left_truncated_spec r i) (ProfileTruncatedSpec.right_truncated_spec r i)). Qed.
+Print Assumptions C19_truncated_spec.
+Theorem C19_rindex_spec : forall l el,
+  (Loops.py_rindex_pre l el = match ProfileHelpers2.last_pos l el with Some _ => true | None => false end) /\
+  forall k, ProfileHelpers2.last_pos l el = Some k -> Loops.py_rindex l el = k.
+Proof.
+From IQ Require ProfileTruncatedSpec.
+exact ProfileTruncatedSpec.rindex_spec. Qed.
+Print Assumptions C19_rindex_spec.
